@@ -95,6 +95,7 @@ type Ctx struct {
 	specFacts   map[string]bool
 	gcOrder     int
 	curBlk      *ssa.BasicBlock
+	dbgAt       map[string]map[ssa.Value][]ssa.Instruction // where (DebugRef) a name was bound to / read as a value
 	pathFact    map[int]bool
 	priorRefs   []string
 	allocClock  int
